@@ -102,7 +102,7 @@ def file_cmd(rng, names):
     if r < 36: return [rng.choice(["wq", "xa", "q"])]
     if r < 37: return ["@@touch " + f]
     if r < 38: return ["@@writefile " + f + " " + hx(rng.choice(WORDS) + "\n")]
-    if r < 39: return ["se " + rng.choice(["wa", "nowa", "aw", "noaw"])]
+    if r < 39: return ["se " + rng.choice(["wa", "nowa", "aw", "noaw"])] if rng.below(3) == 0 else [rng.choice(["1d|e! " + f, "e! " + f + "|1d", "$d|b #", "e #|$d", "1d|e " + f])]
     return ["b!"]
 
 def buf_cases(rng, count, nfiles=3, maxcmds=14):
